@@ -150,6 +150,9 @@ func (pb *predBuilder) valueFormula(v ssa.Value, depth int) formula {
 	}
 	if pb.name != nil {
 		if k := pb.name(v); k != "" {
+			if k[0] == '!' {
+				return mkNot(fAtom{k[1:]}) // named as the negation of an atom (`x == ""` for the atom "x is set")
+			}
 			return fAtom{k} // the rule names this value: an atom, whatever its definition
 		}
 	}
@@ -166,12 +169,7 @@ func (pb *predBuilder) valueFormula(v ssa.Value, depth int) formula {
 		switch x.Op {
 		case token.EQL, token.NEQ, token.LSS, token.LEQ, token.GTR, token.GEQ:
 			if nv, nilWhenTrue, ok := nilCheckOf(x); ok {
-				var a formula = fAtom{"isnil(" + pb.key(nv) + ")"}
-				if pb.nilOf != nil {
-					if ex, ok := pb.nilOf(nv); ok {
-						a = ex
-					}
-				}
+				a := pb.nilFormula(nv, depth+1)
 				if nilWhenTrue {
 					return a
 				}
@@ -227,6 +225,44 @@ func (pb *predBuilder) valueFormula(v ssa.Value, depth int) formula {
 		}
 	}
 	return fAtom{pb.key(v)}
+}
+
+// nilFormula: "v is nil". A value the rule names, or any other value, is an atom; a nil constant is true; a phi
+// that is not loop-carried (the joined results of a folded helper: `return nil` / `return vf.Verify()`) is the
+// disjunction over its edges of (edge taken, relative to the phi block's immediate dominator) && operand is nil.
+func (pb *predBuilder) nilFormula(v ssa.Value, depth int) formula {
+	if pb.nilOf != nil {
+		if ex, ok := pb.nilOf(v); ok {
+			return ex
+		}
+	}
+	named := pb.name != nil && pb.name(v) != ""
+	if !named && depth < 12 {
+		if isNilConst(v) {
+			return fConst{true}
+		}
+		if nonNilByConstruction(v) {
+			return fConst{false}
+		}
+		if x, ok := v.(*ssa.Phi); ok {
+			blk := x.Block()
+			id := blk.Idom()
+			loopHeader := false
+			for _, p := range blk.Preds {
+				if blk.Dominates(p) {
+					loopHeader = true
+				}
+			}
+			if id != nil && !loopHeader {
+				var f formula = fConst{false}
+				for k, e := range x.Edges {
+					f = mkOr(f, mkAnd(pb.pathCondEdge(id, blk.Preds[k], blk), pb.nilFormula(e, depth+1)))
+				}
+				return f
+			}
+		}
+	}
+	return fAtom{"isnil(" + pb.key(v) + ")"}
 }
 
 func edgeFormula(pb *predBuilder, p, b *ssa.BasicBlock) formula {
